@@ -270,6 +270,19 @@ Definition op_ready (g : graph) (x : nat) (p : plan) : option plan :=
   | _ => None
   end.
 
+(* RecomputeDirty is a depth-first walk: a never-visited edge is judged after its inputs, which may be
+   re-scanned dependents (or other never-visited edges) that become ready in the same walk.  So the
+   edges of [ld_ready] take part in the rounds of the re-scan: each is marked as soon as its inputs
+   are ready; the load checks beforehand that they are fresh ([ready_pre]) and afterwards that every
+   one of them was marked. *)
+Definition op_ready_try (g : graph) (x : nat) (p : plan) : plan :=
+  match op_ready g x p with Some p' => p' | None => p end.
+Definition ready_pre (g : graph) (p : plan) (x : nat) : bool :=
+  match p_want p x with
+  | None => (x <? n_edges g) && negb (p_oready p x)
+  | _ => false
+  end.
+
 (* RecomputeDirty on a dependent that is in want_ only for its dependents and is (still) clean: its
    outputs are ready as soon as all its inputs are.  Edges the plan wants stay dirty (with the fix
    "keep an edge dirty when it is re-scanned after a dyndep load"). *)
@@ -280,6 +293,9 @@ Definition op_rescan (g : graph) (x : nat) (p : plan) : plan :=
     then set_oready p (upd (p_oready p) x true) else p
   | _ => p
   end.
+
+Definition rescan_round (g : graph) (deps rd : list nat) (p : plan) : plan :=
+  fold_left (fun a x => op_rescan g x a) deps (fold_left (fun a x => op_ready_try g x a) rd p).
 
 (* AddSubTarget inserts an edge that is not in want_ and whose outputs are not ready *)
 Definition op_add (g : graph) (xw : nat * bool) (p : plan) : option plan :=
@@ -363,19 +379,19 @@ Definition apply_load_gen (strict : bool) (g : graph) (loads : nat -> option loa
       match fold_opt (op_dirty g deps) (ld_dirty L) p1 with
       | None => Forbidden
       | Some p2 =>
-        match fold_opt (op_ready g) (ld_ready L) p2 with
-        | None => Forbidden
-        | Some p3 =>
-          let p4 := Nat.iter (n_edges g) (fun pp => fold_left (fun a x => op_rescan g x a) deps pp) p3 in
-          match fold_opt (op_add g) (ld_added L) p4 with
-          | None => Forbidden
-          | Some p5 =>
-            if chk_evol g L p p5 && chk_closed g p5 && chk_sched g p5 && chk_oclosed g p5
-               && (negb strict || chk_walk g p p5 (ld_walk L))
-            then Ok (p5, ld_walk L)
-            else Forbidden
-          end
-        end
+        if forallb (ready_pre g p2) (ld_ready L) then
+          let p4 := Nat.iter (n_edges g) (rescan_round g deps (ld_ready L)) p2 in
+          if forallb (p_oready p4) (ld_ready L) then
+            match fold_opt (op_add g) (ld_added L) p4 with
+            | None => Forbidden
+            | Some p5 =>
+              if chk_evol g L p p5 && chk_closed g p5 && chk_sched g p5 && chk_oclosed g p5
+                 && (negb strict || chk_walk g p p5 (ld_walk L))
+              then Ok (p5, ld_walk L)
+              else Forbidden
+            end
+          else Forbidden
+        else Forbidden
       end
     end
   end.
@@ -969,6 +985,34 @@ Definition dd_trace_twice : list event :=
 Example dd_old_started_twice : is_some (run_old dd_graph dd_cfg dd_loads [] dd_snap dd_trace_twice) = true.
 Proof. vm_compute. reflexivity. Qed.
 Example dd_new_not_twice : is_some (run dd_graph dd_cfg dd_loads [] dd_snap dd_trace_twice) = false.
+Proof. vm_compute. reflexivity. Qed.
+
+(* The re-scan is a depth-first walk.  0 produces the dyndep file of 1 and 3; 1 is clean and in want_ only
+   for 3 (kWantNothing); the file says that 3 also needs the output of 2, which consumes 1, is up to date
+   and was never visited by the scan (not in want_).  When 0 finishes, the re-scan of 3 descends into 2
+   and from there into 1: 1 becomes ready, then 2 ([ld_ready]), then 3 has all inputs ready. *)
+Definition rd_graph : graph :=
+  mkGraph [ mkEdge [] (plain [1; 3]) 0 false None [1; 3];
+            mkEdge (plain [0]) (plain [2; 3]) 0 false (Some 0) [];
+            mkEdge (plain [1]) [(3, Some 3)] 0 false None [];
+            mkEdge [(0, None); (1, None); (2, Some 3)] [] 0 false (Some 0) [] ] [].
+Definition rd_cfg : config := mkConfig 1 1 None.
+Definition rd_snap : snapshot :=
+  mkSnap (fun e => if Nat.eqb e 0 || Nat.eqb e 3 then Some WToStart
+                   else if Nat.eqb e 1 then Some WNothing else None)
+         (fun _ => false) 2 2.
+Definition rd_loads : nat -> option load :=
+  fun e => if Nat.eqb e 0 then Some (mkLoad [] [2] [] [1; 3]) else None.
+Definition rd_trace : list event :=
+  [ EvStart 0 []; EvWait; EvFinish 0 0 []; EvStart 3 []; EvWait; EvFinish 3 0 []; EvExit 0 MSuccess ].
+Example rd_wf : wf_graph_b rd_graph (fun e => e) && wf_snap_b rd_graph rd_snap && wf_cfg_b rd_cfg = true.
+Proof. vm_compute. reflexivity. Qed.
+Example rd_ok : is_some (run rd_graph rd_cfg rd_loads [] rd_snap rd_trace) = true.
+Proof. vm_compute. reflexivity. Qed.
+(* a payload that does not name 2 is refused: 3 would wait for 2, which is neither ready nor in want_ *)
+Example rd_reject_unmarked :
+  is_some (run rd_graph rd_cfg (fun e => if Nat.eqb e 0 then Some (mkLoad [] [] [] [1; 3]) else None) []
+             rd_snap [EvStart 0 []; EvWait; EvFinish 0 0 []]) = false.
 Proof. vm_compute. reflexivity. Qed.
 
 (* THE OLD BUG 2 (before "fix: schedule validation targets discovered by a mid-build dyndep load").
